@@ -50,7 +50,9 @@ def handle : List String → String
     match parseBool? soft, parseOpt? fbits? cutoff, fbits? s0, fbits? s1, fbits? x, fbits? y, fbits? w,
           (parseList? fbits? px).bind pixels with
     | some soft, some cutoff, some s0, some s1, some x, some y, some w, some px =>
-      showCs (probeSpectrumF soft cutoff s0 s1 x y w px)
+      match probeSpectrumF soft cutoff s0 s1 x y w px with
+      | .ok r => showCs r
+      | .error e => s!"err {e}"
     | _, _, _, _, _, _, _, _ => "bad-op"
   | _ => "bad-op"
 
